@@ -157,6 +157,23 @@ PROPS = {
                     "T6 single-task sequential semantics of the async functions"],
         "assumed": [],
     },
+    "C14": {
+        "verus": ["vrf_labels", "vrf_labels_seq",
+                  ("azks_walk", ["Azks.get_append_only_proof_helper", "Azks.vx_task1", "lemma_walk_unfold", "lemma_child_unfold", "lemma_multiset_algebra", "lemma_concat_multiset", "lemma_push_multiset", "lemma_empty_multiset"])],
+        "search": True,
+        "always_search": True,
+        "bounded_search": [{"obligation": "replay/c14#variants",
+                            "bound": "one 4-epoch history (12 labels; updates; the same 12 again in reverse order; one more label) under {sequential, parallel insertion} x {no cache, cache} x {long-lived instance, "
+                                     "instance re-created over the same storage before every call} x {single-threaded, 4-worker runtime} x both configurations: identical epoch hashes and identical verified lookup results"}],
+        "scope": "partial (the pieces of 'results do not depend on parallelism' that are properties of ONE function): the two compile variants of VRFKeyStorage::get_node_labels - tasks in a JoinSet joined in completion order "
+                 "(feature parallel_vrf) and the plain loop - satisfy the SAME contract: every input tuple is paired with the VRF label of that tuple; the audit walk returns walk_spec of the stored tree (as multisets) "
+                 "through its sequential branch and through its spawned-task branch alike. "
+                 "BOUNDED (never counted as proved): identical epoch hashes and verified results across insertion parallelism, cache, restarts and runtimes for one history. Not decided: order / sub-batch independence of "
+                 "the trie insertion (that is C01's canonical-trie statement), cache lifetimes and memory limits, the preload features, the read-only wrapper.",
+        "trusted": ["tokio task / JoinSet models (a joined value is the value of a spawned future; join_next yields in completion order)", "R-SELF / R-SPAWN / R-REC / R-WHILELET desugarings; termination not proved",
+                    "T4 the VRF as a function of (key pair, label, freshness, version)"],
+        "assumed": [],
+    },
     "C15": {
         "verus": [("manager", [SM + "get_user_state", SM + "compare_db_and_transaction_records", SM + "commit_transaction", SM + "is_transaction_active",
                                SM + "tic_toc", SM + "increment_metric", "DbRecord.transaction_priority", SM + "get_user_state_versions",
